@@ -378,7 +378,7 @@ func c05BigSpecs(thorough bool) []c05BigSpec {
 		add("consts", untyped, 65535, 65536)
 		return out
 	}
-	ts := []int{65000, 65533, 65534, 65535, 65536, 65537, 65538, 65539, 70000, 88015, 131071, 131072, 131075, 131080, 200000}
+	ts := []int{65533, 65534, 65535, 65536, 65537, 65538, 70000, 88015, 131071, 131072, 131075, 200000}
 	for _, m := range []Mode{typed, opt, untyped, {Env: "map", Optimize: true}, {Env: "struct", Optimize: true, Cast: "int64"}} {
 		for _, sh := range []string{"cond-then", "cond-else", "and", "or", "map-back", "map-exit", "filter-back", "count-back", "all-back"} {
 			if m.Cast != "" && sh != "cond-then" && sh != "cond-else" && sh != "count-back" {
@@ -612,6 +612,7 @@ func c05BigPrograms(c *Ctx, specs []c05BigSpec) {
 	}
 	for _, it := range items {
 		s, bp, b := it.s, c05BuildExpect(it.s, it.p.bp), it.p.cs.B
+		bp.Expect = c05CastExpect(s, bp.Expect)
 		expectTxt := "Compile rejects the program, or it is well-formed and the run returns " + c05Head(valSx(bp.Expect).String(), 60) + " with an empty stack"
 		key := c05KeyTrunc
 		what := "a jump offset above 65535 is silently truncated to 16 bits by patchJump/calcBackwardJump: the emitted jump does not reach its intended target"
@@ -710,9 +711,21 @@ func c05BuildExpect(s c05BigSpec, shared c05BigProgram) c05BigProgram {
 	return bp
 }
 
+// AsInt64(): the compiled program ends with OpCast 0
+func c05CastExpect(s c05BigSpec, v interface{}) interface{} {
+	if i, ok := v.(int); ok && s.Mode.Cast == "int64" && s.Mode.Env != "none" {
+		return int64(i)
+	}
+	return v
+}
+
 // replayC05 re-runs the single large program named by a replay file; false = not a large-program replay
 func replayC05(c *Ctx) bool {
 	raw, err := os.ReadFile(c.Replay)
+	if err != nil {
+		// bin/check runs the harness from harness/: a path relative to the checkout root
+		raw, err = os.ReadFile("../" + c.Replay)
+	}
 	if err != nil {
 		return false
 	}
